@@ -1,11 +1,16 @@
-(* C08 - Plan tasks fire in order, only for the succeeded active state, and only once. Theorems only. fire_scan a sa defer ts = (fired, remaining, success bit of a afterwards, clear-after-scan) is the abstract firing rule over the plan as a list of tasks; plan_scan_spec proves the C++ scan (iterator with cached next over the index-linked plan) implements it. *)
+(* C08 - Plan tasks fire in order, only for the succeeded active state, and only once. Theorems only. fire_scan a sa
+   defer ts = (fired, remaining, success bit of a afterwards, clear-after-scan) is the abstract firing rule over the
+   plan as a list of tasks; plan_scan_spec proves the C++ scan (iterator with cached next over the index-linked plan)
+   implements it. *)
 From Coq Require Import List Arith Bool NArith.
 From FFSM2 Require Import Model.TaskList Model.BitArray Model.BitStream Model.Plan Model.Ancestors Model.Machine
   Proofs.BitArrayProofs Proofs.MachineFrame Proofs.MachinePlan Proofs.MachineLife Proofs.GuardProofs Proofs.CycleProofs Proofs.PlanStep
-  Proofs.SerialProofs Proofs.LogProofs Proofs.MachineTop.
+  Proofs.SerialProofs Proofs.LogProofs Proofs.MachineTop Model.Multi Generated.InitFacts Proofs.ConstructProofs Proofs.LifeMonitor Proofs.ActivationRounds Proofs.IndexSafety Proofs.FeatureProofs.
 Import ListNotations.
 
-(* the SUCCESS branch of the plan step: remaining tasks in original order, the request is the last fired task's (origin, destination, payload), the success bit of the active state is consumed accordingly, other bits and everything else unchanged, one transition record per fired task and no callback *)
+(* the SUCCESS branch of the plan step: remaining tasks in original order, the request is the last fired task's
+   (origin, destination, payload), the success bit of the active state is consumed accordingly, other bits and
+   everything else unchanged, one transition record per fired task and no callback *)
 Theorem C08_scan_implements_fire_scan :
   forall (P : Type) (cfg : config),
          1 <= c_n cfg <= 255 ->
@@ -23,7 +28,8 @@ Theorem C08_scan_implements_fire_scan :
 Proof. exact (plan_scan_spec). Qed.
 Print Assumptions C08_scan_implements_fire_scan.
 
-(* only a prefix of tasks whose origin is the active state is scanned; the scan stops at the first task of another origin; fired and kept tasks partition that prefix in order *)
+(* only a prefix of tasks whose origin is the active state is scanned; the scan stops at the first task of another
+   origin; fired and kept tasks partition that prefix in order *)
 Theorem C08_fire_scan_shape :
   forall (P : Type) (a : nat) (ts : list (task P)) (sa defer : bool),
          let
@@ -91,7 +97,8 @@ Theorem C08_success_consumed :
 Proof. exact (success_consumed). Qed.
 Print Assumptions C08_success_consumed.
 
-(* the plan step runs inside update()/react() only (step's other operations never call it: see Model/Machine.v step), before request processing *)
+(* the plan step runs inside update()/react() only (step's other operations never call it: see Model/Machine.v step),
+   before request processing *)
 Theorem C08_plan_step_only_in_update_react :
   forall (P : Type) (cfg : config) (orc : oracle P),
          wf_cfg cfg ->
